@@ -22,6 +22,10 @@ WorksQ == [1..2 -> SeqsUpTo({Tagged, R("stop")}, 2)]
 \* tag scoping across the items of one thread, a run-level call; no faults
 WorksR == [1..2 -> SeqsUpTo({Tagged, Ungl, TestTg, R("startTestRun")}, 2)]
 
+\* the deviation of the code as it is (Variant = asCoded must violate BlockShape here): a tagged test whose block
+\* faults, followed by another tagged test of the same thread
+WorksC == { << <<TestTg, T("addSuccess", NoTags, Add("y"))>>, <<Plain>> >> }
+
 \* thorough: 3 threads x 3 items, 4 threads x 1 item, 2 threads x 3 items, every run-level kind
 W33a == << <<Tagged, Plain, R("stop")>>, <<Plain, Ungl, TestTg>>, <<R("startTestRun"), Tagged, Plain>> >>
 W33b == << <<Plain, Plain, Plain>>, <<Tagged, Tagged, Tagged>>, <<TestTg, R("done"), Ungl>> >>
